@@ -7,7 +7,7 @@ one() {
   w=$(mktemp -d /tmp/refcopy.XXXXXX)
   git -C /repo archive HEAD | tar -x -C $w
   if ! (cd $w && git apply $d 2>/dev/null); then echo "## $d: does not apply"; rm -rf $w; return; fi
-  out=$(bin/rapidlint -repo $w -property all -known known_findings.json -evidence $w/ev 2>&1 | grep -E "^  (VIOLATED|UNDECIDED)" | cut -c1-260)
+  out=$(${RL:-bin/rapidlint} -repo $w -property all -known known_findings.json -evidence $w/ev 2>&1 | grep -E "^  (VIOLATED|UNDECIDED)" | cut -c1-260)
   n=$(echo -n "$out" | grep -c . )
   echo "## $d: $n alarms"
   [ -n "$out" ] && echo "$out"
